@@ -694,5 +694,154 @@ theorem valid_sim {R : NodeId → NodeId → Prop} {e₁ e₂ : Spec.Env} (hE : 
   unfold Spec.valid
   rw [evalFuel_sim hE fuel .nil hs j]
 
+/-! ## the operational evaluator -/
+
+/-- **`validate_iso`**: the evaluator `Go.validateFuel`, run on two resolved environments whose Spec environments
+    simulate each other along `R`, on related schemas under related stacks: ONE Spec result (that of the first
+    environment) governs both runs.  So wherever the Spec decides, both runs return an error (instance invalid) or both
+    succeed with annotations that denote the same evaluated properties and items. -/
+theorem validate_iso {R : NodeId → NodeId → Prop} (env₁ env₂ : Go.VEnv)
+    (hwf₁ : Refine.EnvWF env₁) (hwf₂ : Refine.EnvWF env₂) (hst₁ : Refine.StoreWF env₁.st)
+    (hst₂ : Refine.StoreWF env₂.st) (hE : EnvSim R (Refine.specEnvOf env₁) (Refine.specEnvOf env₂)) (fuel : Nat)
+    {stack₁ stack₂ : List NodeId} (hsc : ListRel R stack₁ stack₂)
+    (hi₁ : ∀ x, x ∈ stack₁ → (env₁.info? x).isSome = true) (hi₂ : ∀ x, x ∈ stack₂ → (env₂.info? x).isSome = true)
+    {s₁ s₂ : NodeId} (hs : R s₁ s₂) (j : Json) (hj : Json.WF j = true) :
+    Refine.Rel j (Spec.evalFuel (Refine.specEnvOf env₁) fuel stack₁ s₁ j)
+        (Go.validateFuel env₁ fuel stack₁ (GoVal.ofJson j) s₁) ∧
+      Refine.Rel j (Spec.evalFuel (Refine.specEnvOf env₁) fuel stack₁ s₁ j)
+        (Go.validateFuel env₂ fuel stack₂ (GoVal.ofJson j) s₂) := by
+  refine ⟨Refine.validate_refines_spec env₁ hwf₁ hst₁ fuel stack₁ hi₁ s₁ j hj, ?_⟩
+  rw [evalFuel_sim hE fuel hsc hs j]
+  exact Refine.validate_refines_spec env₂ hwf₂ hst₂ fuel stack₂ hi₂ s₂ j hj
+
+/-- two runs governed by Spec results that agree up to the order of the evaluated sets (`Inv.OutSim`) return the same
+    verdict, when the Spec decides -/
+theorem same_verdict_of_outSim {j : Json} {o₁ o₂ : Spec.Out} {v₁ v₂ : Res Go.Anns} (ho : Inv.OutSim o₁ o₂)
+    (h₁ : Refine.Rel j o₁ v₁) (h₂ : Refine.Rel j o₂ v₂) (hdec : o₁.isSome = true) :
+    (v₁ = .err ∧ v₂ = .err) ∨ ∃ a₁ a₂, v₁ = .ok a₁ ∧ v₂ = .ok a₂ := by
+  cases o₁ with
+  | none => cases hdec
+  | some r₁ =>
+    cases o₂ with
+    | none => exact ho.elim
+    | some r₂ =>
+      cases r₁ with
+      | none =>
+        cases r₂ with
+        | none => exact Or.inl ⟨h₁, h₂⟩
+        | some _ => exact ho.elim
+      | some ev₁ =>
+        cases r₂ with
+        | none => exact ho.elim
+        | some ev₂ =>
+          obtain ⟨a₁, ha₁, -⟩ := h₁
+          obtain ⟨a₂, ha₂, -⟩ := h₂
+          exact Or.inr ⟨a₁, a₂, ha₁, ha₂⟩
+
+theorem outSim_of_eq {o₁ o₂ : Spec.Out} (h : o₁ = o₂) : Inv.OutSim o₁ o₂ := by
+  subst h
+  cases o₁ with
+  | none => trivial
+  | some r => exact Inv.RSim_refl r
+
+/-- the verdicts of two `Inv.OutSim`-related results are equal -/
+theorem valid_of_outSim {o₁ o₂ : Spec.Out} (h : Inv.OutSim o₁ o₂) :
+    o₁.map Option.isSome = o₂.map Option.isSome := by
+  cases o₁ <;> cases o₂
+  · rfl
+  · exact h.elim
+  · exact h.elim
+  · rename_i r₁ r₂
+    cases r₁ <;> cases r₂
+    · rfl
+    · exact h.elim
+    · exact h.elim
+    · rfl
+
+/-! ## from the tree relations of C05 / C20 to `NodeSim` -/
+
+/-- a schema object and a copy of it whose schema-valued fields are `R`-related (`Go.NodeRel`: what `cloneStep` and
+    the round trip produce) are `NodeSim R`-related -/
+theorem NodeSim.of_nodeRel {R : NodeId → NodeId → Prop} {n n' : Node} (h : Go.NodeRel R n n') : NodeSim R n n' := by
+  obtain ⟨fs', hrel, rfl⟩ := h
+  obtain ⟨c0, c1, c2, c3, c4, c5, c6, c7, c8, c9, c10, c11, c12, c13, c14, c15, c16, c17, c18, c19, c20, c21, c22, rfl,
+    r0, r1, r2, r3, r4, r5, r6, r7, r8, r9, r10, r11, r12, r13, r14, r15, r16, r17, r18, r19, r20, r21, r22⟩ :=
+    Go.childFields_inv hrel
+  exact {
+    scal := rfl
+    allOf := getD_rel r3
+    anyOf := r4
+    oneOf := r15
+    not := r14
+    if_ := r11
+    then_ := r20
+    else_ := r10
+    prefixItems := getD_rel r17
+    items := r12
+    itemsArray := r13
+    additionalItems := r1
+    contains := r5
+    unevaluatedItems := r21
+    properties := fun k => Go.lookup_rel k (getD_rel r18)
+    patternProperties := getD_rel r16
+    additionalProperties := r2
+    propertyNames := r19
+    unevaluatedProperties := r22
+    dependentSchemas := getD_rel r9
+    dependencySchemas := getD_rel r8 }
+
+/-- strengthen the relation on the children by a fact about the left children -/
+theorem nodeRel_and_left {S : NodeId → NodeId → Prop} {P : NodeId → Prop} {n n' : Node} (h : Go.NodeRel S n n')
+    (hp : ∀ f, f ∈ n.childFields → ∀ x, x ∈ f.ids → P x) : Go.NodeRel (fun x y => P x ∧ S x y) n n' := by
+  obtain ⟨fs', hrel, rfl⟩ := h
+  exact ⟨fs', Go.ListRel.imp_mem hrel fun f hf _ hr => Go.FieldRel.and_left hr (hp f hf), rfl⟩
+
+/-- no `$ref` and no `$dynamicRef` on the left: the resolution tables are never consulted, so they are arbitrary -/
+theorem EnvSim.of_refFree {R : NodeId → NodeId → Prop} {e₁ e₂ : Spec.Env} (hd : e₁.draft = e₂.draft)
+    (hre : e₁.reMatch = e₂.reMatch) (hn : ∀ a b, R a b → OptRel (NodeSim R) (e₁.st.get? a) (e₂.st.get? b))
+    (hfree : ∀ a b n, R a b → e₁.st.get? a = some n → n.ref = "" ∧ n.dynamicRef = "") : EnvSim R e₁ e₂ where
+  draft := hd
+  reMatch := hre
+  node := hn
+  ref := fun a b n h hg hr => absurd (hfree a b n h hg).1 hr
+  dyn := fun a b n h hg hr => absurd (hfree a b n h hg).2 hr
+
+/-! ## reference-free trees -/
+
+/-- the schema object has no `$ref` and no `$dynamicRef` -/
+def noRefs (n : Node) : Bool := n.ref == "" && n.dynamicRef == ""
+
+theorem noRefs_iff {n : Node} : noRefs n = true ↔ n.ref = "" ∧ n.dynamicRef = "" := by
+  simp only [noRefs, Bool.and_eq_true, beq_iff_eq]
+
+/-- **reference-free** (decidable): the unfolding of `a` through `Node.children` ends within depth `d` — nil pointers
+    inside slices and maps are allowed as leaves — and no schema object of it has a `$ref` or a `$dynamicRef`.
+    Nothing is asked of `$id` / `$anchor` / `$dynamicAnchor`: without references they are not observable (the theorems
+    below hold for ARBITRARY resolution tables, which is the proof). -/
+def refFree (st : Store) : Nat → NodeId → Bool
+  | 0, a => (st.get? a).isNone
+  | d + 1, a =>
+    match st.get? a with
+    | none => true
+    | some n => noRefs n && n.children.all (refFree st d)
+
+theorem refFree_node {st : Store} : ∀ {d : Nat} {a : NodeId} {n : Node}, refFree st d a = true → st.get? a = some n →
+    ∃ d', d = d' + 1 ∧ noRefs n = true ∧ ∀ x, x ∈ n.children → refFree st d' x = true
+  | 0, a, n, h, hn => by
+    simp only [refFree, hn, Option.isNone_some] at h
+    cases h
+  | d + 1, a, n, h, hn => by
+    simp only [refFree, hn, Bool.and_eq_true, List.all_eq_true] at h
+    exact ⟨d, rfl, h.1, h.2⟩
+
+/-- a full tree (no nil child) all of whose objects are reference-free is `refFree` -/
+theorem refFree_of_treeAll {st : Store} : ∀ {d : Nat} {a : NodeId}, Go.treeAll noRefs st d a = true →
+    refFree st d a = true
+  | 0, _, h => by cases h
+  | d + 1, a, h => by
+    obtain ⟨n, hn, hp, hc⟩ := Go.treeAll_succ h
+    simp only [refFree, hn, Bool.and_eq_true, List.all_eq_true]
+    exact ⟨hp, fun x hx => refFree_of_treeAll (hc x hx)⟩
+
 end Iso
 end JSV
